@@ -28,11 +28,12 @@ import (
 )
 
 type caseIn struct {
-	ID   int            `json:"id"`
-	Src  string         `json:"src,omitempty"`
-	Plan map[string]any `json:"plan"`
-	Root map[string]any `json:"root"`
-	Bare bool           `json:"bare,omitempty"`
+	ID    int            `json:"id"`
+	Src   string         `json:"src,omitempty"`
+	Plan  map[string]any `json:"plan"`
+	Root  map[string]any `json:"root"`
+	Root2 map[string]any `json:"root2,omitempty"` // a second, different root for the same Plan object
+	Bare  bool           `json:"bare,omitempty"`
 }
 
 type run struct {
@@ -52,6 +53,13 @@ type caseOut struct {
 	Str  run            `json:"str"`
 	Simp run            `json:"simp"`
 	Text string         `json:"text"`
+	// PlanUnchanged observations: String() of the executed Plan object before the first and after the last Execute,
+	// the executed object run once more on root2, and a freshly built plan on root2
+	Root2    map[string]any `json:"root2"`
+	Text0    string         `json:"text0"`
+	Text1    string         `json:"text1"`
+	AltSame  run            `json:"alt_same"`
+	AltFresh run            `json:"alt_fresh"`
 }
 
 func main() {
@@ -320,11 +328,33 @@ func one(c caseIn) caseOut {
 	fresh := func() map[string]any { return deep(root).(map[string]any) }
 	// runs 1-3: one Plan object; runs 4-5: fresh Plan objects
 	p, fail := build(raw)
+	out.AltSame, out.AltFresh = run{R: "skip"}, run{R: "skip"}
+	if fail == nil && p != nil {
+		out.Text0 = planText(p)
+	}
+	defer func() {
+		out.Root2 = c.Root2
+	}()
 	for i := 0; i < 3; i++ {
 		if fail != nil {
 			out.Runs = append(out.Runs, *fail)
 		} else {
 			out.Runs = append(out.Runs, execute(p, fresh()))
+		}
+	}
+	if c.Root2 != nil && fail == nil && p != nil {
+		root2 := toGo(c.Root2).(map[string]any)
+		out.AltSame = execute(p, deep(root2).(map[string]any))
+		out.Text1 = planText(p)
+		if pf, ff := build(raw); ff == nil && pf != nil {
+			out.AltFresh = execute(pf, deep(root2).(map[string]any))
+		} else if ff != nil {
+			out.AltFresh = *ff
+		}
+	} else {
+		out.Text1 = out.Text0
+		if fail == nil && p != nil {
+			out.Text1 = planText(p)
 		}
 	}
 	for i := 0; i < 2; i++ {
@@ -355,6 +385,16 @@ func one(c caseIn) caseOut {
 		out.Simp = run{Eq: 1}
 	}
 	return out
+}
+
+// planText is Plan.String(); a panic while printing is reported as text
+func planText(p *asm.Plan) (s string) {
+	defer func() {
+		if x := recover(); x != nil {
+			s = fmt.Sprintf("<String panics: %v>", x)
+		}
+	}()
+	return p.String()
 }
 
 func rebuilt(raw []any, fresh func() map[string]any) (rs, rp run, text string) {
